@@ -486,15 +486,25 @@ def _bool(*d):
     return np.dtype(bool)
 
 
+def _cplx_ge(a, b):
+    """NumPy orders complex numbers lexicographically (real part first)"""
+    a, b = SC(a), SC(b)
+    return (a.re > b.re) | ((a.re == b.re) & (a.im >= b.im))
+
+
 def _scalar_max(a, b):
     if isinstance(a, SB) or isinstance(b, SB):
         a, b = SR(a), SR(b)
+    if isinstance(a, (SC, complex)) or isinstance(b, (SC, complex)):
+        return ite(_cplx_ge(a, b), SC(a), SC(b))
     return ite(a >= b, a, b)
 
 
 def _scalar_min(a, b):
     if isinstance(a, SB) or isinstance(b, SB):
         a, b = SR(a), SR(b)
+    if isinstance(a, (SC, complex)) or isinstance(b, (SC, complex)):
+        return ite(_cplx_ge(b, a), SC(a), SC(b))
     return ite(a <= b, a, b)
 
 
